@@ -39,9 +39,39 @@ def judge(case, seq, data, exc, acc) -> None:
                           {**case, "reader": reader}, {"expect": expect, "got": got})
 
 
+def name_shard(job) -> dict:
+    """Flat streams whose options row has every length (stream names of lo…hi-1 bytes), in
+    both framings: written and read back."""
+    from mc.terms import I, L  # noqa: PLC0415
+
+    _, lo, hi = job
+    acc = pool.Acc()
+    seq = [(I("http://a/s"), I("http://a/p"), L("x")), (I("http://a/s"), I("http://b#q"), L("y"))]
+    for n in range(lo, hi):
+        for dl in (True, False):
+            for preset in ((8, 4, 2), (4000, 150, 32)):
+                for flags in (False, True):
+                    case = {"family": "names", "cls": "triple", "writer": "stream_frames_gen",
+                            "delimited": dl, "preset": list(preset), "name_len": n,
+                            "flags": flags}
+                    acc.evals += 1
+                    acc.nontrivial += 1
+                    try:
+                        opts = DR.make_options("triple", preset, 250, dl, 1, generalized=flags,
+                                               rdf_star=flags, stream_name="n" * n)
+                        data = DR.g_write(seq, "triple", opts)
+                    except Exception as e:  # noqa: BLE001
+                        judge(case, seq, None, e, acc)
+                        continue
+                    judge(case, seq, data, None, acc)
+    return acc.out()
+
+
 def shard(job) -> dict:
     if job[0] == "bfs":
         return bfs_shard(job)
+    if job[0] == "names":
+        return name_shard(job)
     return RT.run_job(job, judge)
 
 
@@ -210,7 +240,8 @@ def run(ctx) -> None:
         jobs = RT.core_jobs(4, long_scopes=("prefix", "datatype"), long_len=5, parts=16)
         jobs += RT.entry_jobs(3) + RT.scale_jobs()
         cap = 120000
-    expected = RT.expected_cases(jobs)
+    expected = RT.expected_cases(jobs) + 160 * 8
+    jobs += [("names", lo, lo + 20) for lo in range(0, 160, 20)]
     bjobs = [("bfs", name, cap) for name in BFS_SCOPES]
     # the same joint search with the other public calls of a stream as additional events
     bjobs += [("bfs", name + "+calls", min(cap, 20000)) for name in ("prefix3", "repeat", "graphs")]
@@ -260,4 +291,8 @@ def replay(case: dict) -> list:
             if out:
                 return out
         return out
+    if case.get("family") == "names":
+        res = name_shard(("names", case["name_len"], case["name_len"] + 1))
+        return [v["what"] for v in res["violations"]
+                if all(v["case"].get(k) == case.get(k) for k in ("delimited", "preset", "flags"))]
     return RT.replay_case(case, judge)
